@@ -69,7 +69,8 @@ class World(object):
             counting._counting = True
             de.DiffRHS.jac = counting
         tol = 1e-3 if cfg["method"].startswith("RICH") else 1e-6
-        a = de.OdeSystem(rhs, y0=y0, t=(dtype(T0), dtype(TF)), dt=dtype(cfg["dt0"]), rtol=dtype(tol), atol=dtype(tol), dense_output=bool(cfg["dense"]))
+        # 'against': the system is configured with the mirrored span and every integrate call names its target (the run goes against the configured direction)
+        a = de.OdeSystem(rhs, y0=y0, t=(dtype(T0), dtype(2 * T0 - TF if cfg.get("against") else TF)), dt=dtype(cfg["dt0"]), rtol=dtype(tol), atol=dtype(tol), dense_output=bool(cfg["dense"]))
         a.equ_rhs.__dict__["_verif_world"] = self
         a.method = method_of(cfg["method"])
         self.a = a
@@ -100,19 +101,20 @@ def apply_op(w, op):
     cbs = [mk("A"), mk("B")]
     obs = dict(op=list(op), rows0=len(a), log=log, raised=None, dt_set=None)
     b = driver.Budget(20000)
+    tgt = (w.dtype(TF),) if w.cfg.get("against") else ()
     try:
         k = op[0]
         if k == "int":
-            a.integrate(callback=cbs + [b])
+            a.integrate(*tgt, callback=cbs + [b])
         elif k == "intT":
             a.integrate(w.dtype(op[1]), callback=cbs + [b])
         elif k == "ev":
-            a.integrate(events=[ev_nonterm], callback=cbs + [b])
+            a.integrate(*tgt, events=[ev_nonterm], callback=cbs + [b])
         elif k == "evterm":
-            a.integrate(events=[ev_nonterm, ev_term], callback=cbs + [b])
+            a.integrate(*tgt, events=[ev_nonterm, ev_term], callback=cbs + [b])
         elif k == "fault":
             w.fault_at = w.rhs_completed + op[1]
-            a.integrate(callback=cbs + [b])
+            a.integrate(*tgt, callback=cbs + [b])
         elif k == "reset":
             a.reset()
             w.rhs_mark = w.rhs_completed
@@ -125,7 +127,7 @@ def apply_op(w, op):
                 if st["n"] == 2:
                     s.dt = w.dtype(op[1])
                     obs["dt_set"] = (len(s), op[1])
-            a.integrate(callback=[cbs[0], setdt, cbs[1], b])
+            a.integrate(*tgt, callback=[cbs[0], setdt, cbs[1], b])
     except de.exception_types.FailedIntegration as e:
         obs["raised"] = "budget" if driver.budget_hit(e) else ("boom" if isinstance(e.__cause__, Boom) else repr(e.__cause__)[:160])
     w.fault_at = None
@@ -220,6 +222,12 @@ def step(cfg, hist):
                 remaining = abs(T[-1] - T[ln - 1])
                 if nxt != val and not (remaining < val):
                     r.v("C20/callback-dt/%s" % name, "a step size assigned by a callback is the one used for the next step", case, observed=dict(next_step=nxt, assigned=val), expected="equal")
+        if obs["dt_set"] and obs["raised"] is None:
+            # every method: the step taken after the assignment goes on toward the target (the assigned magnitude is oriented by the run, not by the configured span)
+            ln, val = obs["dt_set"]
+            if ln < len(T) and (T[ln] - T[ln - 1]) * (TF - T0) <= 0:
+                r.v("C20/callback-dt-direction/%s" % name, "a step size assigned by a callback is the one used for the next step (toward the target of the call)", case,
+                    observed=dict(t_before=T[ln - 1], t_after=T[ln], assigned=val), expected="moves toward the target")
     r.out(("state", name, cfg["dense"], tuple(o[0] for o in hist)))
     r.ret = driver.canon(a, extra=(w.rhs_completed, w.jac_requests))
     if len(hist) == 2 and hash(str(case)) % 97 == 0:
@@ -236,6 +244,7 @@ def run(ctx):
     ctx.assumptions += ["njev may count since construction or since the last reset (either convention); after a reset only the user-Jacobian call count is compared",
                         "Jacobian requests are counted at DiffRHS.jac (the seam the integrators call)"]
     cfgs = [dict(method=m, dt0=dt0, jac=j, dense=d) for (m, dt0, j) in SETUPS for d in (False, True)]
+    cfgs += [dict(method=m, dt0=dt0, jac=j, dense=False, against=True) for (m, dt0, j) in SETUPS]
     explore.bfs(ctx, cfgs, ops_fn, step, depth, section="bfs", horizon=600)
 
 
